@@ -547,6 +547,48 @@ theorem credential_header_removed (L : Lib) (v : Validator) (modes : Nat → Mod
               unfold step; simp [hp, requestheadersHook, ha, authenticateHttp, hc]
             rw [this] at hout; simp at hout
 
+/-- **credential header removed — the CONNECT path (hook level).**  When `http_connect` accepts, the flow's request (what
+    every later hook and the rest of the proxy core see) is the received field list without every field named like the
+    path's credential header; when it refuses, a 407/401 is set and the fields are irrelevant.  `httpConnectHook` is the
+    function the `hook` driver op runs. -/
+theorem connect_hook_removes_credential_header (L : Lib) (v : Validator) (authd : List Nat) (cid : Nat) (m : Mode)
+    (hs hs' : List Hdr) (h : (httpConnectHook L (some v) authd cid m hs).2 = .pass hs') :
+    hs' = hdrDel hs (authName m) ∧ (∀ f ∈ hs', nameIs (authName m) f = false) ∧ hdrGet hs' (authName m) = [] ∧
+    (httpConnectHook L (some v) authd cid m hs).1 = cid :: authd := by
+  unfold httpConnectHook authenticateHttp at h ⊢
+  by_cases hc : credsOk L v m hs = true
+  · simp only [hc, if_true, HookOut.pass.injEq] at h ⊢
+    subst h
+    exact ⟨rfl, hdrDel_none hs _, hdrGet_del hs _, trivial⟩
+  · simp [hc] at h
+
+/-- **credential header removed — the CONNECT path (connection level).**  Whenever a client's CONNECT establishes a
+    tunnel with `proxyauth` configured (regular or upstream mode, any state): the hook has removed the credential header
+    from the flow's request, and the CONNECT head that mitmproxy writes to the upstream proxy in upstream mode carries no
+    field of the client's at all (`upstreamConnectFields`; the end-to-end tie requires that head to consist of the
+    request line and `Host` only, and the oracle scans it for the credential header). -/
+theorem credential_header_removed_connect (L : Lib) (v : Validator) (m : Mode) (σ : State) (cid : Nat) (big : Bool)
+    (hs : List Hdr) (h : (step L (some v) m σ cid (.req true big hs)).2 = .tunnel) :
+    (httpConnectHook L (some v) σ.authd cid m hs).2 = .pass (hdrDel hs (authName m)) ∧
+    (∀ f ∈ hdrDel hs (authName m), nameIs (authName m) f = false) ∧
+    (∀ f ∈ upstreamConnectFields (hdrDel hs (authName m)), nameIs (authName m) f = false) := by
+  refine ⟨?_, hdrDel_none hs _, by simp [upstreamConnectFields]⟩
+  cases hp : σ.phase cid with
+  | closed => unfold step at h; simp [hp] at h
+  | sGreet => unfold step at h; simp [hp] at h
+  | sAuth => unfold step at h; simp [hp] at h
+  | sConnect => unfold step at h; simp [hp] at h
+  | http t =>
+    by_cases hpl : (m.isHttpProxy && !t) = true
+    · by_cases hc : credsOk L v m hs = true
+      · simp [httpConnectHook, authenticateHttp, hc]
+      · have : step L (some v) m σ cid (.req true big hs) = (σ, .deny (authCode m)) := by
+          unfold step; simp [hp, hpl, httpConnectHook, authenticateHttp, hc]
+        rw [this] at h; simp at h
+    · have : step L (some v) m σ cid (.req true big hs) = (σ.setPhase cid .closed, .invalid) := by
+        unfold step; simp [hp, hpl]
+      rw [this] at h; simp at h
+
 /-! ### non-vacuity and sanity (computed by the kernel) -/
 
 /-- a concrete library: ASCII whitespace, ASCII lower-casing, a "decoder" that knows two tokens -/
@@ -1874,5 +1916,11 @@ example : (step Lfull (some (.single [117] [0x20AC, 58, 120])) .reverse (State.i
 example : (step Lfull (some (.single [117] [0x20AC, 58, 120])) .socks5 ((State.init (fun _ => .socks5)).setPhase 0 .sAuth) 0
     (.sAuth ((B64.utf8enc [117]).map UInt8.ofNat) ((B64.utf8enc [0x20AC, 58, 120]).map UInt8.ofNat))).2 = .sAuthOk := by
   decide +kernel
+
+-- a CONNECT carrying the credential twice (one of them) next to another field: both are gone from the flow's request
+example : (httpConnectHook L0 (some single0) [] 0 .upstream
+    [⟨strBytes "X-A", [49]⟩, ⟨pa, cred0⟩, ⟨strBytes "Host", [50]⟩]).2 =
+    .pass [⟨strBytes "X-A", [49]⟩, ⟨strBytes "Host", [50]⟩] := by decide +kernel
+
 
 end MitmVerif.Props.C20
